@@ -1746,7 +1746,6 @@ func c18R7(r *fw.Run, la *fw.LockAnalysis) {
 	r.Expect("C18-R7", "flips of closed reachable from removeSub", nFlip, 1)
 }
 
-
 // c18WhoMayRemoveSubs (C18-R8, added after a seeded change was missed): entries leave wsConnection.subs only
 // through removeSub (which decides about the idle close) or through the wholesale swap in the teardown;
 // a bare delete elsewhere drops the last subscription without ever closing the connection.
